@@ -15,12 +15,12 @@ Definition crypt_constants : list N :=
    crypt_v_rc4_40; crypt_bits_40; crypt_v_rc4; crypt_bits_mod; crypt_v_cf_lo; crypt_v_cf_hi; crypt_v_aesv3; crypt_r_lo; crypt_r_hi;
    crypt_r_rc4_max; crypt_u_len; crypt_o_len; crypt_pw_trunc; crypt_kdf_min; crypt_kdf_tail; crypt_kdf_rep; crypt_kdf_sum;
    crypt_kdf_mod; crypt_kdf_mul; crypt_kdf_add; crypt_kdf_out; crypt_id_bytes; crypt_gen_bytes; crypt_objkey_extra; crypt_objkey_cap;
-   crypt_aes_min; crypt_iv_len; crypt_dkey_cap].
+   crypt_aes_min; crypt_iv_len; crypt_dkey_cap; crypt_fk_len; crypt_fk_size].
 
 (* the literals that appear in Crypt/Model.v, in the same order *)
 Lemma constants_as_modelled :
   crypt_constants = [1; 19; 3; 50; 4; 32; 16;  16; 3; 50; 2; 1; 20;  1; 40; 2; 8; 4; 6; 5; 2; 6;  4; 48; 48; 127; 64; 32; 64; 16;
-                     3; 16; 32; 32; 3; 2; 5; 16;  16; 16; 16].
+                     3; 16; 32; 32; 3; 2; 5; 16;  16; 16; 16;  32; 32].
 Proof. vm_compute. reflexivity. Qed.
 
 Lemma meta_bytes_as_modelled : crypt_meta_bytes = [255; 255; 255; 255].
@@ -33,4 +33,7 @@ Lemma kdf_arms_as_modelled : crypt_kdf_arms = [(32, 256); (48, 384); (64, 512)].
 Proof. vm_compute. reflexivity. Qed.
 
 Lemma padding_length : length PADDING = 32%nat.
+Proof. vm_compute. reflexivity. Qed.
+
+Lemma identity_name_as_modelled : crypt_identity_name = identity_name.
 Proof. vm_compute. reflexivity. Qed.
